@@ -85,9 +85,9 @@ def typeErr : Err := .jaqal "type-check"
 
 /-! ### `Parameter.validate` -/
 
-/-- `Parameter(name, k).validate(v)`, branch by branch. Besides `JaqalError` one more exception can
-escape: an INT parameter offered a `Parameter` of kind FLOAT evaluates `value.value`, which a
-`Parameter` does not have (`AttributeError`). (`bool` is an `int` in Python; the IR has no separate
+/-- `Parameter(name, k).validate(v)`, branch by branch; every failure is a `JaqalError` (since commit
+c898fbf an INT parameter offered a `Parameter` of kind FLOAT fails the type check instead of raising
+`AttributeError` from `value.value`). (`bool` is an `int` in Python; the IR has no separate
 booleans. Non-finite floats are outside `Dec`; they fit FLOAT and untyped parameters only.) -/
 def validate (k : Kind) (v : Val) : M Unit :=
   match k with
@@ -107,10 +107,10 @@ def validate (k : Kind) (v : Val) : M Unit :=
     if (match v with | .flt d => d.isIntegral | .int _ => true | _ => false) then pure ()
     else if avKindIn v [.int, .none] then pure ()
     else if avKindIn v [.float] then
-      -- `float(value.value).is_integer()`
+      -- `hasattr(value, "value") and float(value.value).is_integer()`: only a `Constant` has a value
       match v with
       | .const _ x => if constIntegral x then pure () else throw typeErr
-      | _ => throw (.other "AttributeError")
+      | _ => throw typeErr
     else throw typeErr
   | .none => pure ()
 
